@@ -146,6 +146,20 @@ def sc_speedup(d, n, fit_idx, pred_idx, weights, nn=None, prior=0.0):
         outs.append((w.predict_freq(d.arr(pred_idx, dtype=int)), w.predict_proba(d.arr(pred_idx, dtype=int))))
     d.prove(d.eq_arr(outs[0][0], outs[1][0], 1e-12), "speed_up_same_frequencies")
     d.prove(d.eq_arr(outs[0][1], outs[1][1], 1e-12), "speed_up_same_probabilities")
+    if weights:
+        # label / weight overrides handed to fit are the caller's arrays: they are read, not written (the same weight
+        # array is typically reused for the next fit)
+        m = len(fit_idx)
+        yo = d.arr([NAN if lab[i] < 0 else float(lab[i]) for i in fit_idx])
+        wo = d.arr([d.fl(f"wo{j}", lo=0.0) for j in range(m)])
+        yo0, wo0 = yo.copy(), wo.copy()
+        for speed in (False, True):
+            clf = ParzenWindowClassifier(classes=[0.0, 1.0], metric="rbf", metric_dict={"gamma": 0.5}, n_neighbors=nn, class_prior=prior)
+            w2 = IndexClassifierWrapper(clf, X, y, sample_weight=sw, use_speed_up=speed)
+            w2.precompute(d.arr(fit_idx, dtype=int), d.arr(pred_idx, dtype=int))
+            w2.fit(d.arr(fit_idx, dtype=int), y=yo, sample_weight=wo)
+            d.prove(d.eq_arr(wo, wo0), "fit_leaves_weight_override_unchanged", info=dict(speed_up=speed))
+            d.prove(d.eq_arr(yo, yo0), "fit_leaves_label_override_unchanged", info=dict(speed_up=speed))
     d.witness(True, "ran")
 
 
